@@ -230,3 +230,61 @@ def parse_sim_file(path):
     if instate and buf:
         out.append((label, tlaval.parse_state("\n".join(buf))))
     return out
+
+
+def tla(v):
+    """python value -> TLA+ text (ints, bools, strs, lists/tuples -> sequences, sets/frozensets -> sets, dict -> record)"""
+    if isinstance(v, bool):
+        return "TRUE" if v else "FALSE"
+    if isinstance(v, int):
+        return str(v)
+    if isinstance(v, str):
+        return '"%s"' % v
+    if isinstance(v, (list, tuple)):
+        return "<<" + ", ".join(tla(x) for x in v) + ">>"
+    if isinstance(v, (set, frozenset)):
+        return "{" + ", ".join(sorted(tla(x) for x in v)) + "}"
+    if isinstance(v, dict):
+        return "[" + ", ".join("%s |-> %s" % (k, tla(x)) for k, x in v.items()) + "]"
+    raise TypeError("no TLA+ form for %r" % (v,))
+
+
+def gen_mc(workdir, base, name, consts, spec="Spec", invariants=(), properties=(), constraint=None, init_next=None,
+           extra_defs="", extends_extra=(), postcondition=None, view=None, deadlock=False):
+    """Writes <workdir>/<name>.tla (EXTENDS base; one definition per constant) and <name>.cfg. Returns (tla, cfg).
+    Every constant is substituted by a definition so that sequences/functions/records can be used."""
+    lines = ["---- MODULE %s ----" % name, "EXTENDS %s" % ", ".join([base] + list(extends_extra))]
+    cfg = ["CONSTANTS"]
+    for k, v in consts.items():
+        lines.append("MC_%s == %s" % (k, v if isinstance(v, RawTla) else tla(v)))
+        cfg.append("  %s <- MC_%s" % (k, k))
+    if extra_defs:
+        lines.append(extra_defs)
+    lines.append("====")
+    if init_next:
+        cfg.append("INIT %s" % init_next[0])
+        cfg.append("NEXT %s" % init_next[1])
+    else:
+        cfg.append("SPECIFICATION %s" % spec)
+    for i in invariants:
+        cfg.append("INVARIANT %s" % i)
+    for p in properties:
+        cfg.append("PROPERTY %s" % p)
+    if constraint:
+        cfg.append("CONSTRAINT %s" % constraint)
+    if postcondition:
+        cfg.append("POSTCONDITION %s" % postcondition)
+    if view:
+        cfg.append("VIEW %s" % view)
+    cfg.append("CHECK_DEADLOCK %s" % ("TRUE" if deadlock else "FALSE"))
+    tp = os.path.join(workdir, name + ".tla")
+    cp = os.path.join(workdir, name + ".cfg")
+    with open(tp, "w") as f:
+        f.write("\n".join(lines) + "\n")
+    with open(cp, "w") as f:
+        f.write("\n".join(cfg) + "\n")
+    return tp, cp
+
+
+class RawTla(str):
+    """a string that is already TLA+ text"""
